@@ -61,7 +61,7 @@ def trace_specs(prop, tier, n_quick=8, ev_quick=1000, n_thorough=16, ev_thorough
 def boundary_specs(tier):
     if tier == "quick":
         return [{"mix": "boundary", "seed": SEED * 100 + k, "events": 0} for k in range(3)]
-    return ([{"mix": "boundary", "seed": SEED * 100 + k, "events": 0, "extra": ["--verify-injection", "1"]} for k in range(6)]
+    return ([{"mix": "boundary", "seed": SEED * 100 + k, "events": 0} for k in range(6)]
             + [{"mix": "boundary-real", "seed": SEED * 100 + k, "events": 0} for k in range(3)])
 
 
@@ -143,7 +143,7 @@ def check_property(prop, tier):
     if prop in MIXES:
         b = build_harness("release" if prop in ("C05",) and SEED % 2 == 0 else "debug")
         specs = trace_specs(prop, tier)
-        if prop in ("C06", "C07", "C11"):
+        if prop in ("C06", "C07", "C11", "C16", "C13"):
             specs += boundary_specs(tier)
         r = run_traces(b, specs, prop)
         if prop in ("C06", "C07"):
@@ -238,7 +238,7 @@ def check_c17(v, tier):
     digests = {}
     for fs_ in sets:
         name = "+".join(fs_) or "no_std+alloc"
-        b = build_harness("debug", features=fs_)
+        b = build_harness("debug", features=fs_, threads=("par_iter" in fs_))
         r = run_replay(b, path, [], "C17-" + (name.replace("+", "_")))
         digests[name] = r["digest"]
         # every mismatch with the one specification in a non-default build is a C17 matter
@@ -255,6 +255,24 @@ def check_c17(v, tier):
             t = json.load(open(out))
             v.cov["parts"].append({"part": "par_iter:" + name, "what": "par_iter() visits exactly the nodes of iter()", "arenas": t["arenas"], "max_nodes": t["max_nodes"]})
             v.add_findings([f for f in t["findings"] if f["prop"] == "C17"], "par_iter:" + name)
+    # recorded histories (same seeds) must be byte-identical under every feature set, and are valid
+    # behaviours of the specification (validated once, for the full-featured build)
+    tspecs = ([{"mix": "churn200", "seed": SEED * 10 + k, "events": 200, "max_slots": 8} for k in range(2)]
+              + [{"mix": "c17", "seed": SEED * 10 + 5 + k, "events": 600 if tier == "quick" else 4000, "segment": 300, "max_slots": 10} for k in range(2 if tier == "quick" else 6)])
+    hashes = {}
+    for fs_ in sets:
+        name = "+".join(fs_) or "no_std+alloc"
+        b = build_harness("debug", features=fs_, threads=("par_iter" in fs_))
+        hashes[name] = record_only(b, [dict(x) for x in tspecs], "C17-" + name.replace("+", "_"))
+    ref = "std+macros+par_iter+deser"
+    for name, hs in hashes.items():
+        for i, (f, h) in hs.items():
+            if h != hashes[ref][i][1]:
+                v.add_findings([{"prop": "C17", "kind": "history-differs", "detail": "the history recorded with seed %s / mix %s differs between feature sets {%s} and {%s} (%s vs %s)" % (
+                    tspecs[i]["seed"], tspecs[i]["mix"], name, ref, f, hashes[ref][i][0]), "case": {"files": [f, hashes[ref][i][0]], "spec": tspecs[i]}}], "histories")
+    rt = run_traces(build_harness("debug", features=["std", "macros", "par_iter", "deser"], threads=True), [dict(x) for x in tspecs], "C17-validate")
+    add_traces(v, rt, "the histories compared across feature sets, validated against IndexTree.tla for the full-featured build")
+    v.cov["parts"].append({"part": "histories", "what": "sha256 of recorded histories per feature set (must be identical)", "hashes": {k: [h[1][:16] for h in hs.values()] for k, hs in hashes.items()}})
     ds = set(digests.values())
     v.cov["parts"].append({"part": "digests", "what": "digest of all results / links / iterator outputs per feature set; must be identical", "digests": digests})
     if len(ds) != 1:
@@ -309,7 +327,13 @@ def check_c18(v, tier):
     # (d) binding: real threads on real arenas
     cfg = "Gen_s4g1"
     path, meta = ensure_bundles(cfg)
-    b = build_harness("release")
+    if not auto_ok:
+        # the reader battery shares &Arena between threads and cannot even be compiled then
+        v.cov["explanation"] = "Arena<T> / Node<T> / NodeId are not Send + Sync for every T: Send + Sync (the assertion crate does not compile): reported as the violation; the thread battery was not run."
+        v.cov["evaluations"] += 1
+        v.cov["distinct_nontrivial"] += 2
+        return
+    b = build_harness("release", threads=True)
     out = os.path.join(vlib.RUN, "threads.json")
     every = 5 if tier == "quick" else 1
     rc, o = sh(["bash", "-c", "set -o pipefail; pigz -dc %s | %s threads --threads 16 --every %d --random %d --seed %d --out %s" % (path, b, every, 30 if tier == "quick" else 200, SEED, out)], timeout=7200)
